@@ -165,12 +165,45 @@ def include_flags(cfg):
     return ' '.join(inc)
 
 
+class BuildLock:
+    """Serialises builds in one build root (several checks may run at the same time)."""
+
+    def __init__(self, cfg):
+        os.makedirs(build_root(cfg), exist_ok=True)
+        os.makedirs(os.path.dirname(lib_root(cfg)), exist_ok=True)
+        self.paths = sorted(set([os.path.join(build_root(cfg), '.lock'),
+                                 os.path.join(os.path.dirname(lib_root(cfg)), '.lock')]))
+        self.fds = []
+
+    def __enter__(self):
+        import fcntl
+        for p in self.paths:
+            fd = open(p, 'w')
+            fcntl.flock(fd, fcntl.LOCK_EX)
+            self.fds.append(fd)
+
+    def __exit__(self, *a):
+        import fcntl
+        for fd in self.fds:
+            fcntl.flock(fd, fcntl.LOCK_UN)
+            fd.close()
+        self.fds = []
+
+
 def build_harnesses(harnesses):
     """Generate one build.ninja per config and build the requested binaries."""
     by_cfg = {}
     for h in harnesses:
         by_cfg.setdefault(h.cfg, []).append(h)
     for cfg, hs in by_cfg.items():
+        with BuildLock(cfg):
+            if not build_harnesses_cfg(cfg, hs):
+                return False
+    return True
+
+
+def build_harnesses_cfg(cfg, hs):
+    if True:
         need = []
         for h in hs:
             for l in h.libs:
@@ -185,20 +218,24 @@ def build_harnesses(harnesses):
         os.makedirs(hdir, exist_ok=True)
         c = CONFIGS[cfg]
         launcher = 'ccache ' if shutil.which('ccache') else ''
-        lines = ['ninja_required_version = 1.5',
-                 'cxx = %s%s' % (launcher, c['cxx']),
-                 'cxxflags = %s %s %s' % (SAN_COMMON, c['flags'], include_flags(cfg)),
-                 'rule cc',
-                 '  command = $cxx $cxxflags $extra -MMD -MF $out.d -c $in -o $out',
-                 '  depfile = $out.d',
-                 '  deps = gcc',
-                 '  description = CXX $out',
-                 'rule link',
-                 '  command = %s %s $in $libs -o $out -lpthread -ldl' % (c['cxx'], c['flags']),
-                 '  description = LINK $out',
-                 '']
-        targets = []
+        head = ['ninja_required_version = 1.5',
+                'cxx = %s%s' % (launcher, c['cxx']),
+                'cxxflags = %s %s %s' % (SAN_COMMON, c['flags'], include_flags(cfg)),
+                'rule cc',
+                '  command = $cxx $cxxflags $extra -MMD -MF $out.d -c $in -o $out',
+                '  depfile = $out.d',
+                '  deps = gcc',
+                '  description = CXX $out',
+                'rule link',
+                '  command = %s %s $in $libs -o $out -lpthread -ldl' % (c['cxx'], c['flags']),
+                '  description = LINK $out',
+                '']
+        jobs = []
         for h in hs:
+            # one ninja file (with its own log/deps directory) per harness, so that building one
+            # harness never invalidates what is recorded for another
+            lines = ['builddir = %s' % os.path.join(hdir, '.nj', h.name)] + head
+            os.makedirs(os.path.join(hdir, '.nj', h.name), exist_ok=True)
             objs = []
             srcs = [os.path.join(VERIF, 'harness', s) for s in h.src]
             if h.gen:
@@ -223,19 +260,24 @@ def build_harnesses(harnesses):
             exe = os.path.join(hdir, h.name)
             lines.append('build %s: link %s | %s' % (exe, ' '.join(objs), ' '.join(libs)))
             lines.append('  libs = ' + ' '.join(libs))
-            targets.append(exe)
-        nf = os.path.join(hdir, 'build-%s.ninja' % '_'.join(sorted(h.name for h in hs))[:80])
-        # one ninja file per target set, but a shared .ninja_log/.ninja_deps is fine
-        content = '\n'.join(lines) + '\n'
-        old = None
-        if os.path.exists(nf):
-            old = open(nf).read()
-        if old != content:
-            open(nf, 'w').write(content)
-        r = run_cmd(['ninja', '-C', hdir, '-f', nf, '-j', str(NCPU)] + targets)
-        if r.returncode != 0:
-            log(r.stdout[-8000:])
-            return False
+            nf = os.path.join(hdir, 'build-%s.ninja' % h.name)
+            content = '\n'.join(lines) + '\n'
+            old = open(nf).read() if os.path.exists(nf) else None
+            if old != content:
+                open(nf, 'w').write(content)
+            jobs.append((nf, exe))
+        par = 1 if len(jobs) <= 1 else min(4, len(jobs))
+        nj = max(4, NCPU // par)
+
+        def one(job):
+            return run_cmd(['ninja', '-C', hdir, '-f', job[0], '-j', str(nj), job[1]])
+
+        with concurrent.futures.ThreadPoolExecutor(max_workers=par) as ex:
+            rs = list(ex.map(one, jobs))
+        for r in rs:
+            if r.returncode != 0:
+                log(r.stdout[-8000:])
+                return False
     return True
 
 
